@@ -403,6 +403,17 @@ fn body_j<'tcx>(tcx: TyCtxt<'tcx>, ldid: LocalDefId, body: &Body<'tcx>) -> J {
         blocks.push(cx.block_j(data));
     }
     o.set("blocks", J::Arr(blocks));
+    // promoted constants (e.g. `&SchemaNode::String`): their tiny bodies, so that provenance can see through them
+    let mut proms = Vec::new();
+    for pbody in tcx.promoted_mir(did).iter() {
+        let pcx = Cx { tcx, body: pbody, env: TypingEnv::post_analysis(tcx, did) };
+        let mut pb = Vec::new();
+        for (_bb, data) in pbody.basic_blocks.iter_enumerated() {
+            pb.push(pcx.block_j(data));
+        }
+        proms.push(J::Arr(pb));
+    }
+    o.set("promoted", J::Arr(proms));
     o
 }
 
@@ -691,6 +702,9 @@ impl<'a, 'tcx> Cx<'a, 'tcx> {
         }
         if let mir::Const::Unevaluated(uv, _) = c {
             o.set("named", J::s(self.tcx.def_path_str(uv.def)));
+            if let Some(p) = uv.promoted {
+                o.set("promoted", J::Int(p.as_u32() as i128));
+            }
         }
         let ev = std::panic::catch_unwind(std::panic::AssertUnwindSafe(|| {
             c.eval(self.tcx, self.env, rustc_span::DUMMY_SP)
